@@ -22,7 +22,8 @@ Definition inv (n : node) : Prop :=
   (forall s, In s (n_streams n) -> stream_ok n s) /\
   pend_ok n /\
   (n_role n <> RLeader -> n_pend n = []) /\
-  (n_status n = Leader -> n_role n = RLeader /\ n_trk n <> None).
+  (n_status n = Leader -> n_role n = RLeader /\ n_trk n <> None) /\
+  n_termlost n = false.
 
 Lemma inv_init : inv init.
 Proof.
@@ -47,14 +48,14 @@ Definition same_but_trk_commit (n n' : node) : Prop :=
   n_term n' = n_term n /\ n_wal n' = n_wal n /\ n_synced n' = n_synced n /\ n_role n' = n_role n /\
   n_status n' = n_status n /\ n_streams n' = n_streams n /\ n_cur n' = n_cur n /\ n_gen n' = n_gen n /\
   n_pend n' = n_pend n /\ n_last n' = n_last n /\
-  (n_trk n = None -> n_trk n' = None) /\ (n_trk n <> None -> n_trk n' <> None).
+  (n_trk n = None -> n_trk n' = None) /\ (n_trk n <> None -> n_trk n' <> None) /\ n_termlost n' = n_termlost n.
 
 Lemma same_refl : forall n, same_but_trk_commit n n.
 Proof. intro n. unfold same_but_trk_commit. repeat split; auto. Qed.
 
 Lemma same_trans : forall a b c, same_but_trk_commit a b -> same_but_trk_commit b c -> same_but_trk_commit a c.
 Proof.
-  unfold same_but_trk_commit. intros a b c (?&?&?&?&?&?&?&?&?&?&?&?) (?&?&?&?&?&?&?&?&?&?&?&?).
+  unfold same_but_trk_commit. intros a b c (?&?&?&?&?&?&?&?&?&?&?&?&?) (?&?&?&?&?&?&?&?&?&?&?&?&?).
   repeat split; try congruence; auto.
 Qed.
 
@@ -104,8 +105,8 @@ Qed.
 (* ------------------------------------------------------------------ preservation of [inv] *)
 Ltac break_inv H :=
   let A1 := fresh "Hwal" in let A2 := fresh "Hsyn" in let A3 := fresh "Hfen" in let A4 := fresh "Hstr" in
-  let A5 := fresh "Hpend" in let A6 := fresh "Hrole" in let A7 := fresh "Hlead" in
-  destruct H as (A1 & A2 & A3 & A4 & A5 & A6 & A7).
+  let A5 := fresh "Hpend" in let A6 := fresh "Hrole" in let A7 := fresh "Hlead" in let A8 := fresh "Htl" in
+  destruct H as (A1 & A2 & A3 & A4 & A5 & A6 & A7 & A8).
 
 Lemma pend_ok_nil : forall n, n_pend n = [] -> pend_ok n.
 Proof. intros n H o g Hin. rewrite H in Hin. contradiction. Qed.
@@ -113,7 +114,7 @@ Proof. intros n H o g Hin. rewrite H in Hin. contradiction. Qed.
 Lemma status_of_term_not_leader : forall t, status_of_term t <> Leader.
 Proof. intro t. unfold status_of_term. destruct (t =? -1); discriminate. Qed.
 
-Ltac inv7 := unfold inv; cbn; refine (conj _ (conj _ (conj _ (conj _ (conj _ (conj _ _)))))).
+Ltac inv7 := unfold inv; cbn; refine (conj _ (conj _ (conj _ (conj _ (conj _ (conj _ (conj _ _))))))).
 
 Ltac fin :=
   try solve [apply pend_ok_nil; reflexivity];
@@ -137,24 +138,27 @@ Proof.
   repeat split; fin.
 Qed.
 
+Lemma dterm_inv : forall n, inv n -> dterm n = n_term n.
+Proof. intros n H. break_inv H. unfold dterm. rewrite Htl. reflexivity. Qed.
+
 Lemma inv_get_or_create_follower : forall n t n1, inv n -> get_or_create_follower n t = Some n1 ->
   inv n1 /\ n_role n1 = RFollower /\ n_term n1 = n_term n /\ n_wal n1 = n_wal n.
 Proof.
-  intros n t n1 H Hg. unfold get_or_create_follower in Hg.
+  intros n t n1 H Hg. unfold get_or_create_follower in Hg. pose proof (dterm_inv _ H) as Hd.
   destruct (n_role n) eqn:Hr.
-  - inversion Hg; subst. split; [apply inv_open_follower; assumption|]. repeat split.
+  - inversion Hg; subst. split; [apply inv_open_follower; assumption|]. split; [reflexivity|]. split; [exact Hd|reflexivity].
   - inversion Hg; subst. split; [assumption|]. split; [assumption|]. split; reflexivity.
   - destruct ((0 <=? t) && negb (t =? n_term n)); [discriminate|]. inversion Hg; subst.
-    split; [apply inv_open_follower; assumption|]. repeat split.
+    split; [apply inv_open_follower; assumption|]. split; [reflexivity|]. split; [exact Hd|reflexivity].
 Qed.
 
 Lemma inv_get_or_create_leader : forall n, inv n ->
   inv (get_or_create_leader n) /\ n_role (get_or_create_leader n) = RLeader /\
   n_term (get_or_create_leader n) = n_term n /\ n_wal (get_or_create_leader n) = n_wal n.
 Proof.
-  intros n H. unfold get_or_create_leader. destruct (n_role n) eqn:Hr.
-  - split; [apply inv_open_leader; assumption|]. repeat split.
-  - split; [apply inv_open_leader; assumption|]. repeat split.
+  intros n H. unfold get_or_create_leader. pose proof (dterm_inv _ H) as Hd. destruct (n_role n) eqn:Hr.
+  - split; [apply inv_open_leader; assumption|]. split; [reflexivity|]. split; [exact Hd|reflexivity].
+  - split; [apply inv_open_leader; assumption|]. split; [reflexivity|]. split; [exact Hd|reflexivity].
   - split; [assumption|]. split; [assumption|]. split; reflexivity.
 Qed.
 
@@ -183,10 +187,10 @@ Proof.
   cbn [fix_head cfg_fixed] in Hs.
   destruct (complete_writes _ _ _) as [m r] eqn:Hc.
   apply complete_writes_pres in Hc. unfold same_but_trk_commit in Hc. cbn in Hc.
-  destruct Hc as (Ht & Hw & Hsy & Hro & Hst & Hstr' & Hcu & Hge & Hpe & Hla & Htn & Htnn).
+  destruct Hc as (Ht & Hw & Hsy & Hro & Hst & Hstr' & Hcu & Hge & Hpe & Hla & Htn & Htnn & Htl').
   break_inv H.
   assert (inv (set_leader m (n_trk m) (n_gen m) [])).
-  { inv7; rewrite ?Hw, ?Hsy, ?Hst, ?Hstr', ?Hro; fin.
+  { inv7; rewrite ?Hw, ?Hsy, ?Hst, ?Hstr', ?Hro, ?Htl'; fin.
     intros s Hin. apply (stream_ok_term_le n); [auto|cbn; lia]. }
   destruct (get_last_eid _ _); inversion Hs; subst; assumption.
 Qed.
@@ -309,26 +313,28 @@ Qed.
 
 (* terms carried by requests are real terms (>= -1; -1 is "no term") *)
 Definition wf_action (a : action) : Prop :=
-  match a with SnapshotInstall _ t _ => -1 <= t | _ => True end.
+  match a with SnapshotInstall _ t _ f => -1 <= t /\ (f <= 1)%nat | _ => True end.
 
-Lemma inv_follower_snapshot : forall n sid t c n' o, inv n -> n_role n = RFollower -> -1 <= t ->
-  follower_snapshot cfg_fixed n sid t c = (n', o) -> inv n'.
+Lemma inv_follower_snapshot : forall n sid t c f n' o, inv n -> n_role n = RFollower -> -1 <= t -> (f <= 1)%nat ->
+  follower_snapshot cfg_fixed n sid t c f = (n', o) -> inv n'.
 Proof.
-  intros n sid t c n' o H Hrf Ht Hs. pose proof (follower_pend_nil _ H Hrf) as Hp. unfold follower_snapshot in Hs.
+  intros n sid t c f n' o H Hrf Ht Hf Hs. pose proof (follower_pend_nil _ H Hrf) as Hp. unfold follower_snapshot in Hs.
   destruct (n_cur n); [inversion Hs; subst; assumption|].
-  cbn [fix_snap cfg_fixed] in Hs. break_inv H.
-  destruct (negb (n_term n =? -1) && negb (t =? n_term n)) eqn:Hb; cbn [andb] in Hs; [inversion Hs; subst; inv7; fin|].
+  cbn [fix_snap cfg_fixed] in Hs.
+  destruct f as [|[|f']]; [|inversion Hs; subst; assumption|lia]. cbn [Nat.eqb andb] in Hs.
+  break_inv H.
+  destruct (negb (n_term n =? -1) && negb (t =? n_term n)) eqn:Hb; [inversion Hs; subst; inv7; fin|].
   inversion Hs; subst n' o. inv7; rewrite ?Hrf; fin.
   intros s Hin. apply (stream_ok_term_le n); [auto|]. cbn.
   apply andb_false_iff in Hb. destruct Hb as [Hb|Hb]; apply negb_false_iff in Hb; apply Z.eqb_eq in Hb.
-  - specialize (Hstr s Hin). lia.
+  - specialize (Hstr s Hin). destruct Hstr as [_ Hle]. lia.
   - lia.
 Qed.
 
 Lemma inv_crash : forall n k, inv n ->
-  inv (mkN (n_term n) (firstn (Nat.max (n_synced n) (Nat.min k (length (n_wal n)))) (n_wal n))
-           (Nat.max (n_synced n) (Nat.min k (length (n_wal n)))) (n_commit n) RNone (status_of_term (n_term n))
-           (-1) 0 None [] false None (n_gen n) []).
+  inv (mkN (dterm n) (firstn (Nat.max (n_synced n) (Nat.min k (length (n_wal n)))) (n_wal n))
+           (Nat.max (n_synced n) (Nat.min k (length (n_wal n)))) (n_commit n) RNone (status_of_term (dterm n))
+           (-1) 0 None [] false None (n_gen n) [] false (n_commit n)).
 Proof.
   intros n k H. break_inv H. inv7; fin.
   - apply wal_ok_firstn. assumption.
@@ -381,9 +387,9 @@ Proof.
   intros n n' o H Hs. unfold leader_sync_done in Hs.
   destruct (complete_writes _ _ _) as [m r] eqn:Hc.
   apply complete_writes_pres in Hc. unfold same_but_trk_commit in Hc. cbn in Hc.
-  destruct Hc as (Ht & Hw & Hsy & Hro & Hst & Hstr' & Hcu & Hge & Hpe & Hla & Htn & Htnn).
+  destruct Hc as (Ht & Hw & Hsy & Hro & Hst & Hstr' & Hcu & Hge & Hpe & Hla & Htn & Htnn & Htl').
   break_inv H. inversion Hs; subst n' o.
-  inv7; rewrite ?Hw, ?Hsy, ?Hst, ?Hstr', ?Hro; fin.
+  inv7; rewrite ?Hw, ?Hsy, ?Hst, ?Hstr', ?Hro, ?Htl'; fin.
   - intros s Hin. eapply stream_ok_same_term; [apply Hstr; assumption|assumption].
   - intro Hl. destruct (Hlead Hl) as [Hr Hn]. split; [assumption|auto].
 Qed.
@@ -405,7 +411,7 @@ Proof.
   - destruct (n_role n) eqn:Hr; try (inversion Hs; subst; assumption). eapply inv_follower_sync_end; eassumption.
   - destruct (n_role n) eqn:Hr; try (inversion Hs; subst; assumption). eapply inv_follower_stream_break; eassumption.
   - destruct (get_or_create_follower n t) as [n1|] eqn:Hg; [|inversion Hs; subst; assumption].
-    destruct (inv_get_or_create_follower _ _ _ H Hg) as (Hi & Hrf & _). eapply inv_follower_snapshot; eassumption.
+    destruct (inv_get_or_create_follower _ _ _ H Hg) as (Hi & Hrf & _). destruct Hwf as [Hw1 Hw2]. eapply inv_follower_snapshot; eassumption.
   - inversion Hs; subst n' o. apply inv_crash. assumption.
   - destruct (inv_get_or_create_leader _ H) as (Hi & Hrl & _). eapply inv_leader_become; eassumption.
   - destruct (n_role n) eqn:Hr; try (inversion Hs; subst; assumption). eapply inv_leader_write; eassumption.
@@ -459,7 +465,7 @@ Proof.
   cbn [fix_head cfg_fixed] in Hs.
   destruct (complete_writes _ _ _) as [m r] eqn:Hc.
   apply complete_writes_pres in Hc. unfold same_but_trk_commit in Hc. cbn in Hc.
-  destruct Hc as (Ht & Hw & Hsy & Hro & Hst & Hstr' & Hcu & Hge & Hpe & Hla & Htn & Htnn).
+  destruct Hc as (Ht & Hw & Hsy & Hro & Hst & Hstr' & Hcu & Hge & Hpe & Hla & Htn & Htnn & Htl').
   break_inv H. pose proof (get_last_eid_full (n_wal n) Hwal) as Hg.
   cbn in Hs. rewrite Hw, Hsy, Hg in Hs. inversion Hs; subst n' o. cbn in Hr. inversion Hr; subst h. cbn.
   rewrite Hw, Hsy, Ht, Hst, Hro. repeat split; auto.
@@ -486,7 +492,7 @@ Qed.
 (* the term an action carries: the one in the request (for an Append: the term of the stream / request) *)
 Definition act_term (n : node) (a : action) : option Z :=
   match a with
-  | NewTermReq t | TruncateReq t _ | ReplicateOpen _ t | SnapshotInstall _ t _ | BecomeLeaderReq t => Some t
+  | NewTermReq t | TruncateReq t _ | ReplicateOpen _ t | SnapshotInstall _ t _ _ | BecomeLeaderReq t => Some t
   | FollowerAppend sid _ _ => match find_stream n sid with Some s => Some (s_term s) | None => None end
   | _ => None
   end.
@@ -523,28 +529,33 @@ Lemma firstn_max_all : forall (w : list entry) s k, s = length w -> firstn (Nat.
   Nat.max s (Nat.min k (length w)) = length w.
 Proof. intros w s k Hs. assert (Nat.max s (Nat.min k (length w)) = length w) by lia. rewrite H. split; [apply firstn_all|reflexivity]. Qed.
 
-Lemma gocf_facts : forall n t m, get_or_create_follower n t = Some m ->
+Lemma termlost_inv : forall n, inv n -> n_termlost n = false.
+Proof. intros n H. break_inv H. assumption. Qed.
+
+Lemma gocf_facts : forall n t m, get_or_create_follower n t = Some m -> n_termlost n = false ->
   n_term m = n_term n /\ n_wal m = n_wal n /\
   (n_synced n = length (n_wal n) -> n_synced m = length (n_wal m)) /\
   (n_status n <> Leader -> n_status m <> Leader) /\ n_role m = RFollower.
 Proof.
-  intros n t m H. unfold get_or_create_follower in H.
+  intros n t m H Htl. unfold get_or_create_follower in H.
+  assert (Hd : dterm n = n_term n) by (unfold dterm; rewrite Htl; reflexivity).
   pose proof (status_of_term_cases (n_term n)) as Hsot.
   destruct (n_role n) eqn:Hr.
-  - inversion H; subst. cbn. repeat split; auto. intros _. destruct Hsot as [Hx|Hx]; rewrite Hx; discriminate.
+  - inversion H; subst. cbn. rewrite Hd. repeat split; auto. intros _. destruct Hsot as [Hx|Hx]; rewrite Hx; discriminate.
   - inversion H; subst. repeat split; auto.
-  - destruct ((0 <=? t) && negb (t =? n_term n)); [discriminate|]. inversion H; subst. cbn. repeat split; auto.
+  - destruct ((0 <=? t) && negb (t =? n_term n)); [discriminate|]. inversion H; subst. cbn. rewrite Hd. repeat split; auto.
     intros _. destruct Hsot as [Hx|Hx]; rewrite Hx; discriminate.
 Qed.
 
-Lemma gocl_facts : forall n, let m := get_or_create_leader n in
+Lemma gocl_facts : forall n, n_termlost n = false -> let m := get_or_create_leader n in
   n_term m = n_term n /\ n_wal m = n_wal n /\
   (n_synced n = length (n_wal n) -> n_synced m = length (n_wal m)) /\
   (n_status n <> Leader -> n_status m <> Leader) /\ n_role m = RLeader.
 Proof.
-  intros n m. subst m. unfold get_or_create_leader.
+  intros n Htl m. subst m. unfold get_or_create_leader.
+  assert (Hd : dterm n = n_term n) by (unfold dterm; rewrite Htl; reflexivity).
   pose proof (status_of_term_cases (n_term n)) as Hsot.
-  destruct (n_role n) eqn:Hr; cbn; repeat split; auto; intros _; destruct Hsot as [Hx|Hx]; rewrite Hx; discriminate.
+  destruct (n_role n) eqn:Hr; cbn; rewrite ?Hd; repeat split; auto; intros _; destruct Hsot as [Hx|Hx]; rewrite Hx; discriminate.
 Qed.
 
 Lemma low_step : forall T n a n' o, fenced_at T n -> wf_action a -> low T n a ->
@@ -552,6 +563,7 @@ Lemma low_step : forall T n a n' o, fenced_at T n -> wf_action a -> low T n a ->
   fenced_at T n' /\ n_wal n' = n_wal n /\ n_term n' = n_term n.
 Proof.
   intros T n a n' o (Hinv & HT & Hsy & Hnl) Hwf Hlow Hs.
+  pose proof (termlost_inv _ Hinv) as Htl0.
   assert (Hinv' : inv n') by (eapply step_inv; eassumption).
   unfold fenced_at. 
   assert (Hgoal : T <= n_term n' /\ n_synced n' = length (n_wal n') /\ n_status n' <> Leader /\
@@ -565,17 +577,17 @@ Proof.
     { intros m Hm Hx. unfold leader_new_term in Hx. destruct (t <? n_term m) eqn:E; [inversion Hx; reflexivity|].
       bools. lia. }
     destruct (n_role n) eqn:Hro.
-    + apply Hgl in Hs; [|unfold get_or_create_leader; rewrite Hro; reflexivity]. subst n'. unfold get_or_create_leader. rewrite Hro. cbn.
+    + apply Hgl in Hs; [|unfold get_or_create_leader; rewrite Hro; cbn; unfold dterm; rewrite Htl0; reflexivity]. subst n'. unfold get_or_create_leader. rewrite Hro. cbn. unfold dterm; rewrite Htl0.
       repeat split; auto. destruct Hsot as [Hx|Hx]; rewrite Hx; discriminate.
     + unfold follower_new_term in Hs. destruct (t <? n_term n) eqn:E; [inversion Hs; subst; repeat split; auto|].
       bools. lia.
     + apply Hgl in Hs; [|unfold get_or_create_leader; rewrite Hro; reflexivity]. subst n'. unfold get_or_create_leader. rewrite Hro. repeat split; auto.
   - destruct (get_or_create_follower n t) as [m|] eqn:Hg; [|inversion Hs; subst; repeat split; auto].
-    destruct (gocf_facts _ _ _ Hg) as (Hm1 & Hm2 & Hm3 & Hm4 & Hm5). specialize (Hm3 Hsy). specialize (Hm4 Hnl).
+    destruct (gocf_facts _ _ _ Hg Htl0) as (Hm1 & Hm2 & Hm3 & Hm4 & Hm5). specialize (Hm3 Hsy). specialize (Hm4 Hnl).
     unfold follower_truncate in Hs.
     dm Hs; bools; try lia; inversion Hs; subst n' o; cbn in *; repeat split; auto; try lia; try congruence.
   - destruct (get_or_create_follower n t) as [m|] eqn:Hg; [|inversion Hs; subst; repeat split; auto].
-    destruct (gocf_facts _ _ _ Hg) as (Hm1 & Hm2 & Hm3 & Hm4 & Hm5). specialize (Hm3 Hsy). specialize (Hm4 Hnl).
+    destruct (gocf_facts _ _ _ Hg Htl0) as (Hm1 & Hm2 & Hm3 & Hm4 & Hm5). specialize (Hm3 Hsy). specialize (Hm4 Hnl).
     unfold follower_replicate_open in Hs.
     dm Hs; bools; try lia; inversion Hs; subst n' o; cbn in *; repeat split; auto; try lia; try congruence.
   - unfold follower_append in Hs. destruct (n_role n); try (inversion Hs; subst; repeat split; auto; fail).
@@ -590,13 +602,13 @@ Proof.
   - unfold follower_stream_break in Hs.
     dm Hs; inversion Hs; subst n' o; cbn in *; repeat split; auto.
   - destruct (get_or_create_follower n t) as [m|] eqn:Hg; [|inversion Hs; subst; repeat split; auto].
-    destruct (gocf_facts _ _ _ Hg) as (Hm1 & Hm2 & Hm3 & Hm4 & Hm5). specialize (Hm3 Hsy). specialize (Hm4 Hnl).
+    destruct (gocf_facts _ _ _ Hg Htl0) as (Hm1 & Hm2 & Hm3 & Hm4 & Hm5). specialize (Hm3 Hsy). specialize (Hm4 Hnl).
     unfold follower_snapshot in Hs. cbn in Hwf.
     dm Hs; cbn in *; bools; try lia; inversion Hs; subst n' o; cbn in *; repeat split; auto; try lia; try congruence.
-  - inversion Hs; subst n' o. cbn.
+  - inversion Hs; subst n' o. cbn. unfold dterm; rewrite Htl0.
     destruct (firstn_max_all (n_wal n) (n_synced n) k Hsy) as [Hf Hm]. rewrite Hf, Hm.
     repeat split; auto. destruct Hsot as [Hx|Hx]; rewrite Hx; discriminate.
-  - destruct (gocl_facts n) as (Hm1 & Hm2 & Hm3 & Hm4 & Hm5). specialize (Hm3 Hsy). specialize (Hm4 Hnl).
+  - destruct (gocl_facts n Htl0) as (Hm1 & Hm2 & Hm3 & Hm4 & Hm5). specialize (Hm3 Hsy). specialize (Hm4 Hnl).
     remember (get_or_create_leader n) as m. unfold leader_become in Hs.
     dm Hs; bools; try lia; inversion Hs; subst n' o; cbn in *; repeat split; auto; try lia; try congruence.
   - unfold leader_write in Hs.
@@ -641,9 +653,9 @@ Qed.
 Lemma step_term_mono : forall n a n' o, inv n -> wf_action a -> step cfg_fixed n a = (n', o) ->
   n_term n <= n_term n'.
 Proof.
-  intros n a n' o H Hwf Hs. destruct a; cbn [step] in Hs.
+  intros n a n' o H Hwf Hs. pose proof (termlost_inv _ H) as Htl0. destruct a; cbn [step] in Hs.
   - destruct (n_role n) eqn:Hro.
-    + unfold leader_new_term in Hs. destruct (gocl_facts n) as (Hm1 & _). remember (get_or_create_leader n) as m.
+    + unfold leader_new_term in Hs. destruct (gocl_facts n Htl0) as (Hm1 & _). remember (get_or_create_leader n) as m.
       destruct (t <? n_term m) eqn:E; [inversion Hs; subst; lia|]. bools.
       destruct ((t =? n_term m) && _); [inversion Hs; subst; lia|].
       cbn [fix_head cfg_fixed] in Hs. destruct (complete_writes _ _ _) as [m2 r] eqn:Hc.
@@ -651,27 +663,27 @@ Proof.
       destruct (get_last_eid _ _); inversion Hs; subst n' o; cbn; lia.
     + unfold follower_new_term in Hs. destruct (t <? n_term n) eqn:E; [inversion Hs; subst; lia|]. bools.
       destruct (get_last_eid _ _); inversion Hs; subst n' o; cbn; lia.
-    + unfold leader_new_term in Hs. destruct (gocl_facts n) as (Hm1 & _). remember (get_or_create_leader n) as m.
+    + unfold leader_new_term in Hs. destruct (gocl_facts n Htl0) as (Hm1 & _). remember (get_or_create_leader n) as m.
       destruct (t <? n_term m) eqn:E; [inversion Hs; subst; lia|]. bools.
       destruct ((t =? n_term m) && _); [inversion Hs; subst; lia|].
       cbn [fix_head cfg_fixed] in Hs. destruct (complete_writes _ _ _) as [m2 r] eqn:Hc.
       apply complete_writes_pres in Hc. destruct Hc as (Ht & _). cbn in Ht.
       destruct (get_last_eid _ _); inversion Hs; subst n' o; cbn; lia.
   - destruct (get_or_create_follower n t) as [m|] eqn:Hg; [|inversion Hs; subst; lia].
-    destruct (gocf_facts _ _ _ Hg) as (Hm1 & _). unfold follower_truncate in Hs.
+    destruct (gocf_facts _ _ _ Hg Htl0) as (Hm1 & _). unfold follower_truncate in Hs.
     dm Hs; inversion Hs; subst n' o; cbn; lia.
   - destruct (get_or_create_follower n t) as [m|] eqn:Hg; [|inversion Hs; subst; lia].
-    destruct (gocf_facts _ _ _ Hg) as (Hm1 & _). unfold follower_replicate_open in Hs.
+    destruct (gocf_facts _ _ _ Hg Htl0) as (Hm1 & _). unfold follower_replicate_open in Hs.
     dm Hs; inversion Hs; subst n' o; cbn; lia.
   - unfold follower_append in Hs. dm Hs; inversion Hs; subst n' o; cbn; lia.
   - unfold follower_sync_begin in Hs. dm Hs; inversion Hs; subst n' o; cbn; lia.
   - unfold follower_sync_end in Hs. dm Hs; inversion Hs; subst n' o; cbn; lia.
   - unfold follower_stream_break in Hs. dm Hs; inversion Hs; subst n' o; cbn; lia.
   - destruct (get_or_create_follower n t) as [m|] eqn:Hg; [|inversion Hs; subst; lia].
-    destruct (gocf_facts _ _ _ Hg) as (Hm1 & _). unfold follower_snapshot in Hs. cbn in Hwf.
+    destruct (gocf_facts _ _ _ Hg Htl0) as (Hm1 & _). unfold follower_snapshot in Hs. cbn in Hwf.
     dm Hs; cbn in *; bools; inversion Hs; subst n' o; cbn; lia.
-  - inversion Hs; subst; cbn; lia.
-  - destruct (gocl_facts n) as (Hm1 & _). remember (get_or_create_leader n) as m. unfold leader_become in Hs.
+  - inversion Hs; subst; cbn; unfold dterm; rewrite Htl0; lia.
+  - destruct (gocl_facts n Htl0) as (Hm1 & _). remember (get_or_create_leader n) as m. unfold leader_become in Hs.
     dm Hs; inversion Hs; subst n' o; cbn; lia.
   - unfold leader_write in Hs. dm Hs; inversion Hs; subst n' o; cbn; lia.
   - destruct (n_role n); try (inversion Hs; subst; lia).
@@ -745,9 +757,9 @@ Lemma step_wal_grows : forall n a n' o, inv n -> step cfg_fixed n a = (n', o) ->
   \/ (exists p e, a = ClientWrite p /\ n_wal n' = n_wal n ++ [e] /\ e_term e = n_term n /\
                   n_status n = Leader /\ n_term n' = n_term n).
 Proof.
-  intros n a n' o H Hs Hlen. destruct a; cbn [step] in Hs.
+  intros n a n' o H Hs Hlen. pose proof (termlost_inv _ H) as Htl0. destruct a; cbn [step] in Hs.
   - destruct (n_role n) eqn:Hro.
-    + destruct (gocl_facts n) as (_ & Hm2 & _). remember (get_or_create_leader n) as m.
+    + destruct (gocl_facts n Htl0) as (_ & Hm2 & _). remember (get_or_create_leader n) as m.
       unfold leader_new_term in Hs.
       destruct (t <? n_term m); [(inversion Hs; subst; cbn in Hlen; rewrite ?Hm2 in Hlen; exfalso; lia)|].
       destruct ((t =? n_term m) && _); [(inversion Hs; subst; cbn in Hlen; rewrite ?Hm2 in Hlen; exfalso; lia)|].
@@ -755,7 +767,7 @@ Proof.
       apply complete_writes_pres in Hc. destruct Hc as (_ & Hw & _). cbn in Hw.
       destruct (get_last_eid _ _); (inversion Hs; subst n' o; cbn in Hlen; rewrite Hw, Hm2 in Hlen; exfalso; lia).
     + unfold follower_new_term in Hs. dm Hs; (inversion Hs; subst n' o; cbn in Hlen; rewrite ?Hm2 in Hlen; exfalso; lia).
-    + destruct (gocl_facts n) as (_ & Hm2 & _). remember (get_or_create_leader n) as m.
+    + destruct (gocl_facts n Htl0) as (_ & Hm2 & _). remember (get_or_create_leader n) as m.
       unfold leader_new_term in Hs.
       destruct (t <? n_term m); [(inversion Hs; subst; cbn in Hlen; rewrite ?Hm2 in Hlen; exfalso; lia)|].
       destruct ((t =? n_term m) && _); [(inversion Hs; subst; cbn in Hlen; rewrite ?Hm2 in Hlen; exfalso; lia)|].
@@ -772,7 +784,7 @@ Proof.
       inversion Hs; subst n' o. cbn in Hlen. subst w'. pose proof (firstn_length_le _ k (n_wal m)). rewrite Hm2 in *. exfalso; lia.
     + inversion Hs; subst n' o. cbn in Hlen. rewrite ?Hm2 in Hlen. exfalso; lia.
   - destruct (get_or_create_follower n t) as [m|] eqn:Hg; [|(inversion Hs; subst; cbn in Hlen; rewrite ?Hm2 in Hlen; exfalso; lia)].
-    destruct (gocf_facts _ _ _ Hg) as (_ & Hm2 & _).
+    destruct (gocf_facts _ _ _ Hg Htl0) as (_ & Hm2 & _).
     unfold follower_replicate_open in Hs. dm Hs; (inversion Hs; subst n' o; cbn in Hlen; rewrite ?Hm2 in Hlen; exfalso; lia).
   - destruct (n_role n) eqn:Hro; try ((inversion Hs; subst; cbn in Hlen; rewrite ?Hm2 in Hlen; exfalso; lia)).
     unfold follower_append in Hs.
@@ -792,10 +804,10 @@ Proof.
   - destruct (n_role n); try ((inversion Hs; subst; cbn in Hlen; rewrite ?Hm2 in Hlen; exfalso; lia)).
     unfold follower_stream_break in Hs. dm Hs; (inversion Hs; subst n' o; cbn in Hlen; rewrite ?Hm2 in Hlen; exfalso; lia).
   - destruct (get_or_create_follower n t) as [m|] eqn:Hg; [|(inversion Hs; subst; cbn in Hlen; rewrite ?Hm2 in Hlen; exfalso; lia)].
-    destruct (gocf_facts _ _ _ Hg) as (_ & Hm2 & _).
+    destruct (gocf_facts _ _ _ Hg Htl0) as (_ & Hm2 & _).
     unfold follower_snapshot in Hs. dm Hs; (inversion Hs; subst n' o; cbn in Hlen; rewrite ?Hm2 in Hlen; exfalso; lia).
   - inversion Hs; subst n' o. cbn in Hlen. pose proof (firstn_length_le _ (Nat.max (n_synced n) (Nat.min k (length (n_wal n)))) (n_wal n)). exfalso; lia.
-  - destruct (gocl_facts n) as (_ & Hm2 & _). remember (get_or_create_leader n) as m.
+  - destruct (gocl_facts n Htl0) as (_ & Hm2 & _). remember (get_or_create_leader n) as m.
     unfold leader_become in Hs. dm Hs; (inversion Hs; subst n' o; cbn in Hlen; rewrite ?Hm2 in Hlen; exfalso; lia).
   - destruct (n_role n) eqn:Hro; try ((inversion Hs; subst; cbn in Hlen; rewrite ?Hm2 in Hlen; exfalso; lia)).
     unfold leader_write in Hs.
